@@ -213,11 +213,17 @@ StepSep ==
   /\ q' = <<>> /\ prevAdded' = FALSE
   /\ i' = i + 1 /\ UNCHANGED <<ops, blocks, dl, lastTgt, pc>>
 
+\* a "\\ No newline at end of file" marker: neither added, removed nor context -- it only becomes prev_line
+StepOther ==
+  /\ pc = "walk" /\ i <= Len(dl) /\ dl[i].t = "other"
+  /\ prevAdded' = FALSE
+  /\ i' = i + 1 /\ UNCHANGED <<ops, blocks, dl, q, lastTgt, changes, pc>>
+
 WalkDone ==
   /\ pc = "walk" /\ i > Len(dl)
   /\ pc' = "done" /\ UNCHANGED <<ops, blocks, dl, i, q, prevAdded, lastTgt, changes>>
 
-Next == StepRemoved \/ StepAdded \/ StepSep \/ WalkDone
+Next == StepRemoved \/ StepAdded \/ StepSep \/ StepOther \/ WalkDone
 
 Spec == Init /\ [][Next]_vars /\ WF_vars(Next)
 
@@ -233,6 +239,7 @@ WalkAll(d, bs, k, qq, pa, lt, f1, f2) ==
               THEN <<Ranged(d[k].tgt, PairRng(bs, Head(qq).op, d[k].op))>>
                    \o WalkAll(d, bs, k + 1, Tail(qq), TRUE, d[k].tgt, f1, f2)
               ELSE <<Whole(d[k].tgt)>> \o WalkAll(d, bs, k + 1, qq, TRUE, d[k].tgt, f1, f2)
+         [] d[k].t = "other" -> WalkAll(d, bs, k + 1, qq, FALSE, lt, f1, f2)
          [] d[k].t = "sep" ->
               (IF qq = <<>> THEN <<>>
                ELSE IF pa THEN (IF f2 THEN <<Whole(lt + 1)>> ELSE <<>>)
